@@ -655,8 +655,7 @@ class ColangParser:
         if (
             self.next_line is None
             or self.next_line["indentation"] <= self.current_line["indentation"]
-            and self.text.startswith("define user")
-        ):
+        ) and self.text.startswith("define user"):
             self.next_line = {
                 "text": self.text.replace("define user", ""),
                 # We keep the line mapping the same
